@@ -200,18 +200,34 @@ def check(ctx):
     if os.environ.get("VERIF_KF_OFF"):      # self-test only: strict contract (validates the proposed fixes / the KFs' narrowness)
         kf = {k: False for k in kf}
     tier = "quick" if quick else "thorough"
-    # (a)+(b) model checking of the design model against the contract + scenario emission, per converter
+    # (a)+(b) model checking of the design model against the contract + scenario emission, per converter. The model follows the
+    # tree: a deviation is modelled as coded while its finding is open (FixX = FALSE) and as repaired once the entry is closed.
+    fix = {"FixUpper": not kf["KF_X04_AscUpperHexId"], "FixTrail": not kf["KF_X04_AscNoTrailData"], "FixPrevYear": not kf["KF_X04_LogcatPrevYear"]}
+
+    def design(name, cfg, timeout=3000):
+        txt = open(os.path.join(c.SPEC, "mc", cfg)).read()
+        for k, val in fix.items():
+            txt = txt.replace("%s = FALSE" % k, "%s = %s" % (k, "TRUE" if val else "FALSE"))
+        p = ctx.path("cfg-" + cfg)
+        with open(p, "w") as f:
+            f.write(txt)
+        res = c.tlc(os.path.join(c.SPEC, "mc", "MCTextConv.tla"), p, ctx.path("tlc-" + name), keep_log=ctx.path("tlc-" + name + ".log"), timeout=timeout)
+        if not res.ok:
+            raise c.ToolError("TLC run %s did not pass (rc=%s, violation=%s); log: %s\n%s" % (
+                name, res.rc, res.violation, ctx.path("tlc-" + name + ".log"), res.out[-3000:]))
+        ctx.add_tlc(name, res)
+        return res
     scns = []
     for kind in KINDS:
-        res = c.tlc_must_pass(ctx, "design-" + kind, "mc/MCTextConv.tla", "TextConv_%s_%s.cfg" % (kind, tier), timeout=3000)
+        res = design("design-" + kind, "TextConv_%s_%s.cfg" % (kind, tier))
         got = c.scn_lines(res)
         if not got:
             raise c.ToolError("TextConv emitted no scenarios for " + kind)
         scns += got
-        # the same model with the three proposed repairs: the strict contract holds on every case
+        # the same model with all three repairs: the strict contract holds on every case
         c.tlc_must_pass(ctx, "design-fixed-" + kind, "mc/MCTextConv.tla", "TextConv_%s_fixed%s.cfg" % (kind, "" if not quick else "_tiny"), timeout=3000)
         if not quick:
-            c.tlc_must_pass(ctx, "design-live-" + kind, "mc/MCTextConv.tla", "TextConv_%s_tiny.cfg" % kind, timeout=3000)   # + termination
+            design("design-live-" + kind, "TextConv_%s_tiny.cfg" % kind)   # + termination
     scn_path = ctx.path("scenarios.ndjson")
     with open(scn_path, "w") as f:
         for s in scns:
@@ -267,16 +283,12 @@ def check(ctx):
     need_contract = ["asc:can", "asc:can:neg", "asc:can:ref", "asc:can:negref", "asc:err", "asc:map", "asc:eof",
                      "logcat:ann:mono", "logcat:log:mono", "logcat:log:up", "logcat:ann:abs", "logcat:log:abs", "logcat:eof",
                      "genlog:ann", "genlog:log", "genlog:eof"]       # prefixes of kind:class[:time rule][:nodate][:anyts][:anyname|:newname]
-    if kf["KF_X04_LogcatPrevYear"]:
-        need_contract.append("logcat:panic-prev-year")
     missing = [k for k in need_driver if not info["paths"].get(k)]
     missing += [k for k in need_contract if not any(x == k or x.startswith(k + ":") for x in v.stat)]
     missing += [k for k in ("nodate", "newname", "anyname", "anyts") if not any(k in x.split(":") for x in v.stat)]
-    for lab in KFS:
-        if kf[lab] and not known_cases.get(lab):
-            missing.append("known finding never met: " + lab)
-    if any(kf.values()) and not info["predicted_not_ok"]:
-        missing.append("no scenario with contract_ok = false although findings are open")
+    # informational (a repaired tree no longer meets a finding that is still listed as open)
+    ctx.extra["open_findings_not_met"] = [lab for lab in KFS if kf[lab] and not known_cases.get(lab)]
+    ctx.extra["model_fix_switches"] = fix
     ctx.extra["paths_never_exercised"] = missing
     if missing and not ctx.violations:      # (with violations the code may be too broken to reach a path: the verdict stands)
         raise c.ToolError("vacuity: paths never exercised: %s" % missing)
